@@ -113,36 +113,4 @@ def encode : List Char → Bytes
   | [] => []
   | c :: cs => encodeChar c ++ encode cs
 
-/-! ### C06's formulation of strict decoding (kept here because both checks import this module; see
-    `Proofs.Lemmas.Utf8` for the C19 lemmas about `decodeStrict`) -/
-
-/-- strict UTF-8 decoding (RFC 3629: no overlong forms, no surrogates, max U+10FFFF); none = UnicodeDecodeError -/
-def utf8Decode : List Nat → Option (List Char)
-  | [] => some []
-  | b0 :: r =>
-    if b0 < 0x80 then (utf8Decode r).map (Char.ofNat b0 :: ·)
-    else if 0xC2 ≤ b0 && b0 ≤ 0xDF then
-      match r with
-      | b1 :: r' => if isCont b1 then (utf8Decode r').map (Char.ofNat ((b0 - 0xC0) * 64 + (b1 - 0x80)) :: ·) else none
-      | _ => none
-    else if 0xE0 ≤ b0 && b0 ≤ 0xEF then
-      match r with
-      | b1 :: b2 :: r' =>
-        let lo := if b0 == 0xE0 then 0xA0 else 0x80
-        let hi := if b0 == 0xED then 0x9F else 0xBF
-        if lo ≤ b1 && b1 ≤ hi && isCont b2 then
-          (utf8Decode r').map (Char.ofNat ((b0 - 0xE0) * 4096 + (b1 - 0x80) * 64 + (b2 - 0x80)) :: ·)
-        else none
-      | _ => none
-    else if 0xF0 ≤ b0 && b0 ≤ 0xF4 then
-      match r with
-      | b1 :: b2 :: b3 :: r' =>
-        let lo := if b0 == 0xF0 then 0x90 else 0x80
-        let hi := if b0 == 0xF4 then 0x8F else 0xBF
-        if lo ≤ b1 && b1 ≤ hi && isCont b2 && isCont b3 then
-          (utf8Decode r').map (Char.ofNat ((b0 - 0xF0) * 262144 + (b1 - 0x80) * 4096 + (b2 - 0x80) * 64 + (b3 - 0x80)) :: ·)
-        else none
-      | _ => none
-    else none
-
 end Pywbem.Model.Utf8
